@@ -41,7 +41,7 @@ def load_invocations():
 
 
 def run_inv(gv, o):
-    rc, out, err = vlib.sh([gv] + o["args"], input=o["stdin"], timeout=900)
+    rc, out, err = vlib.sh([gv] + o["args"], input=o["stdin"], timeout=40)
     return hashlib.sha1(("%d\n%s" % (rc, out)).encode("utf8", "replace")).hexdigest()
 
 
